@@ -38,6 +38,8 @@ func main() {
 			os.Exit(2)
 		}
 		os.Exit(replayMain(args[1]))
+	case "count-child":
+		os.Exit(countChildMain(args[1:]))
 	case "race-child":
 		os.Exit(raceChildMain(args[1:]))
 	}
